@@ -196,6 +196,8 @@ class BuiltinMixin:
             outs = self.getattr_v(st, obj, cs, node)
         elif isinstance(obj, SV) and isinstance(name, SV):
             outs = self.getattr_dynamic(st, obj, name, node)
+        elif isinstance(obj, SV) and not isinstance(name, SV):
+            raise Unsupported(f'getattr name is not a string value: {name!r}', node)
         elif isinstance(obj, ClassV) and isinstance(name, SV) and not obj.ci.external:
             # getattr(<known class>, <symbolic name>): case split over the names the class table defines
             nm = s_of(name.term)
@@ -231,7 +233,10 @@ class BuiltinMixin:
         """getattr(obj, <symbolic name>): a heap read at a symbolic attribute name; names that resolve to methods
         or properties of the object's class are case-split."""
         if obj.cls is None:
-            raise Unsupported('getattr(obj, name) on object of unknown class', node)
+            # an object of a class outside the class table (user object): the attribute is whatever its heap cell holds
+            val = self.hload(st, r_of(obj.term), s_of(name.term))
+            st.assume(self.older(st, val))
+            return self.ok(st, SV(val))
         nm = s_of(name.term)
         outs = []
         cur = st
@@ -765,6 +770,8 @@ class BuiltinMixin:
         if lib is not None:
             return self.apply_contract(st, lib, None, BuiltinV(ci.qualname), args, node)
         q = ci.qualname
+        if q == 'functools.partial':
+            return self.bi_functools_partial(st, args, node)
         if q in ('dict', 'list', 'tuple', 'set', 'str', 'bool', 'type', 'frozenset', 'int'):
             return self.call_builtin(st, q, args, node)
         if any(c.qualname == 'BaseException' for c in ci.mro):
